@@ -50,7 +50,7 @@ func (j job) prmString() string {
 	return strings.Join(s, ",")
 }
 
-var traceScripts = []string{"basic", "retention", "baseline", "reset", "resetfetch", "rerestore", "follow", "sidecar", "checkpoint"}
+var traceScripts = []string{"basic", "retention", "baseline", "reset", "resetfetch", "republish", "rerestore", "follow", "sidecar", "checkpoint"}
 
 func drawJob(r *rand.Rand, script string) job {
 	return job{Script: script, Seed: r.Int63n(1 << 30), Prm: []int{2 + r.Intn(4), 1 + r.Intn(4), 50 + r.Intn(3000)}}
@@ -178,7 +178,7 @@ func modeTrace(self, out string, n int, seed int64, replay *job) error {
 
 // ---- C03 -----------------------------------------------------------------------
 
-var killScripts = []string{"basic", "reset", "resetfetch", "retention", "baseline", "rerestore", "checkpoint", "follow", "sidecar"}
+var killScripts = []string{"basic", "reset", "resetfetch", "republish", "retention", "baseline", "rerestore", "checkpoint", "follow", "sidecar"}
 
 func verifyLTX(path string) (err error) {
 	defer func() {
